@@ -9,7 +9,7 @@ use crate::{
         types::LOCATOR_KIND_UDP_V6,
     },
 };
-use core::net::{IpAddr, Ipv4Addr, Ipv6Addr, SocketAddr, SocketAddrV4};
+use core::net::{IpAddr, Ipv4Addr, Ipv6Addr, SocketAddr, SocketAddrV4, SocketAddrV6};
 use dust_dds::transport::types::{LOCATOR_KIND_UDP_V4, Locator};
 use network_interface::{Addr, NetworkInterface, NetworkInterfaceConfig};
 use socket2::Socket;
@@ -329,7 +329,15 @@ impl ToSocketAddrs for UdpLocator {
                 );
                 Ok(Some(SocketAddr::V4(address)).into_iter())
             }
-            LOCATOR_KIND_UDP_V6 => todo!(),
+            LOCATOR_KIND_UDP_V6 => {
+                let address = SocketAddrV6::new(
+                    Ipv6Addr::from(locator_address),
+                    self.0.port() as u16,
+                    0,
+                    0,
+                );
+                Ok(Some(SocketAddr::V6(address)).into_iter())
+            }
             _ => Err(std::io::ErrorKind::InvalidInput.into()),
         }
     }
